@@ -34,7 +34,10 @@ RULE = (
     "child), then a restarted client talks to a well-behaved server: it must succeed, return the newest profile, and leave a "
     "whole cache.  schedules: two concurrent profile requests on one client, gated at cache read / server reply / "
     "open-for-write / write / close / replace, all interleavings enumerated; afterwards the cache must "
-    "be one of the complete profiles sent and a further request must succeed.  non-trivial = history with a successful write "
+    "be one of the complete profiles sent and a further request must succeed.  History steps also include a request through "
+    "another server's client with url= for the call, and ofxget's scan (about thirty concurrent profile requests through one "
+    "client): every request goes to the server meant, asks with the date held then, and a reply that is not newer leaves the "
+    "cache alone.  non-trivial = history with a successful write "
     "followed by up-to-date / failure / restart, every crash point, every schedule with overlapping writes"
 )
 ASSUMPTIONS = [
